@@ -195,8 +195,8 @@ def list_family() -> list:
 def fn_programs() -> list:
     """Whole programs (helper functions cannot be packed as snippets)."""
     P = []
-    def add(name, defs, setup, loop=None, ain=(), npass=2):
-        P.append(PROG(setup, loop, defs, npass=npass, ain=list(ain), pid=name))
+    def add(name, defs, setup, loop=None, ain=(), npass=2, lead=0):
+        P.append(PROG(setup, loop, defs, npass=npass, ain=list(ain), pid=name, lead=lead))
     add("fn0", {"f": DEF([], [WRITE(I(1)), RETURN(I(7))])}, [WRITE(CALL("f")), EXPR(CALL("f"))])
     add("fn1", {"dbl": DEF(["x"], [RETURN(BIN("*", V("x"), I(2)))])}, [WRITE(CALL("dbl", AREAD())), WRITE(CALL("dbl", CALL("dbl", I(3))))], ain=[5])
     add("fn2", {"sub": DEF(["x", "y"], [RETURN(BIN("-", V("x"), V("y")))])}, [ASSIGN("a", AREAD()), WRITE(CALL("sub", V("a"), I(2))), WRITE(CALL("sub", I(2), V("a")))], ain=[9])
@@ -226,6 +226,13 @@ def fn_programs() -> list:
         [ASSIGN("smp", BIN("*", AREAD(), F(0.5))), WRITE(CALL("max", V("smp"), I(1), I(2))), WRITE(CALL("min", F(0.5), AREAD(), I(7))),
          WRITE(CALL("max", I(1), V("smp"), I(2), I(0))), WRITE(CALL("min", I(9), I(8), V("smp"))), WRITE(CALL("cap", F(12.5))), WRITE(CALL("cap", BIN("*", AREAD(), F(0.5))))],
         ain=[5, 3, 25])
+    # the same local name, hoisted out of a branch in one helper (int) and out of a loop in another (float), after the prologue
+    # has hoisted a name of its own: every helper's locals are typed on their own
+    add("fn_same_local_two_helpers",
+        {"fa": DEF(["q"], [IF([(CMP(V("q"), (">", I(1))), [ASSIGN("t", I(3))])], [ASSIGN("t", I(4))]), RETURN(V("t"))]),
+         "fb": DEF(["n"], [FOR("i", V("n"), [ASSIGN("t", BIN("*", V("i"), F(0.5)))]), RETURN(V("t"))])},
+        [IF([(CMP(AREAD(), (">", I(1))), [ASSIGN("z", I(1))])], [ASSIGN("z", I(2))]), WRITE(CALL("fa", I(2))), WRITE(CALL("fb", I(4))), WRITE(V("z")),
+         WRITE(CALL("fb", I(2))), WRITE(CALL("fa", I(0)))], ain=[5], lead=1)
     add("fn_list", {"total": DEF(["xs"], [ASSIGN("t", I(0)), FOR("i", CALL("len", V("xs")), [AUG("t", "+", INDEX(V("xs"), V("i")))]), RETURN(V("t"))])}, [ASSIGN("v", LIST(I(1), I(2), AREAD())), WRITE(CALL("total", V("v")))], ain=[4])
     return P
 
@@ -253,6 +260,15 @@ def persist_programs() -> list:
         [WRITE(V("lim")), WRITE(V("ok"))])
     add("pro_fn_then_first", [ASSIGN("gain", I(1)), EXPR(CALL("tune")), ASSIGN("scaled", BIN("*", V("gain"), I(10)))], [WRITE(V("scaled"))],
         defs={"tune": DEF([], [ASSIGN("gain", I(7))], ["gain"])})
+    # a prologue tuple assignment that binds a NEW name together with existing ones; the new name is used by the main loop
+    add("pro_tuple_mixed", [ASSIGN("total", I(10)), TUPLE(["total", "last"], [I(0), V("total")]), WRITE(V("last")),
+                            ASSIGN("lo", I(3)), ASSIGN("hi", I(7)), TUPLE(["lo", "hi", "span"], [V("hi"), V("lo"), BIN("-", V("hi"), V("lo"))]), WRITE(V("span"))],
+        [AUG("total", "+", V("last")), WRITE(V("total")), WRITE(BIN("+", BIN("*", V("lo"), I(100)), BIN("+", BIN("*", V("hi"), I(10)), V("span"))))])
+    # the program sets pin modes itself, more than once for one pin: every pin_mode statement runs once, in source order
+    add("pro_mode_aba", [PMODE(7, "out"), DWRITE(7, I(1)), PMODE(7, "in"), PMODE(6, "inpu"), PMODE(7, "out"), DWRITE(7, I(0)), PMODE(6, "inpu"), PMODE(6, "out")],
+        [DWRITE(7, CMP(AREAD(), (">", I(0)))), DWRITE(6, I(1))], ain=[1, 0, 1])
+    add("pro_mode_in_blocks", [PMODE(7, "out"), IF([(CMP(AREAD(), (">", I(0))), [PMODE(7, "in"), PMODE(7, "out")])]), FOR("mi", I(2), [PMODE(5, "out"), DWRITE(5, V("mi"))])],
+        [PMODE(7, "out"), DWRITE(7, I(1))], ain=[1])
     add("per_pins", [DWRITE(7, I(1)), AWRITE(9, I(100))], [DWRITE(7, CMP(AREAD(), (">", I(0)))), AWRITE(9, AREAD()), SLEEP(I(10))], ain=[1, 5, 0, 200, 1, 255])
     return P
 
@@ -346,6 +362,34 @@ def tflow_snippets(cases: list) -> list:
         sn = snip(f"tflow{n}", st, ain, "tflow:" + site, defs)
         sn["types"] = [t1, t2]
         out.append(sn)
+    return out
+
+
+def type_label_snippets() -> list:
+    """Expressions and statement sequences whose inferred type label matters after the statement itself: arithmetic on
+    bool operands (an int in Python), augmented assignment followed by a use that derives a new type from the name."""
+    out = []
+    n = 0
+    for op in ("+", "-", "*"):
+        for a, b in ((5, 5), (5, 0), (0, 5), (0, 0)):
+            n += 1
+            st = [ASSIGN(f"bh{n}", BIN(op, CMP(AREAD(), (">", I(2))), CMP(AREAD(), (">", I(2))))), WRITE(V(f"bh{n}")),
+                  ASSIGN(f"bk{n}", BIN("+", V(f"bh{n}"), I(10))), WRITE(V(f"bk{n}"))]
+            out.append(snip(f"boolarith{n}", st, [a, b], "typelabel:bool-arith"))
+    out.append(snip("boolarith-three", [ASSIGN("bt", BIN("+", BIN("+", CMP(AREAD(), (">", I(2))), CMP(AREAD(), (">", I(2)))), CMP(AREAD(), (">", I(2))))), WRITE(V("bt"))],
+                    [5, 5, 5], "typelabel:bool-arith"))
+    out.append(snip("boolarith-fn", [ASSIGN("ca", AREAD()), ASSIGN("cb", AREAD()), WRITE(CALL("cnt2", V("ca"), V("cb"))), ASSIGN("bq", CALL("cnt2", I(9), I(9))), WRITE(BIN("*", V("bq"), I(3)))], [5, 5], "typelabel:bool-arith",
+                    {"cnt2": DEF(["a", "b"], [RETURN(BIN("+", CMP(V("a"), (">", I(2))), CMP(V("b"), (">", I(2)))))])}))
+    # augmented assignment with a narrower right-hand side, then a use that takes its type from the name
+    out.append(snip("aug-then-derive", [ASSIGN("lv", F(2.5)), AUG("lv", "+", I(1)), ASSIGN("lw", V("lv")), WRITE(V("lw")), WRITE(BIN("*", V("lv"), I(2)))], [], "typelabel:aug"))
+    out.append(snip("aug-then-return", [WRITE(CALL("lvl")), ASSIGN("lr", CALL("lvl")), WRITE(V("lr"))], [], "typelabel:aug",
+                    {"lvl": DEF([], [ASSIGN("level", F(2.5)), AUG("level", "+", I(1)), RETURN(V("level"))])}))
+    out.append(snip("aug-mul-then-arg", [ASSIGN("gn", F(0.5)), AUG("gn", "*", I(3)), WRITE(CALL("twice", V("gn")))], [], "typelabel:aug",
+                    {"twice": DEF(["q"], [RETURN(BIN("*", V("q"), I(2)))])}))
+    out.append(snip("aug-mod-float", [ASSIGN("turn", F(725.5)), AUG("turn", "%", I(360)), WRITE(V("turn")), ASSIGN("tq", F(7.5)), AUG("tq", "//", I(2)), WRITE(V("tq"))], [], "typelabel:aug"))
+    out.append(snip("aug-bool-counter", [ASSIGN("ha", AREAD()), ASSIGN("hb", AREAD()), WRITE(CALL("hits3", V("ha"), V("hb"), I(0)))], [5, 5], "typelabel:aug",
+                    {"hits3": DEF(["a", "b", "c"], [ASSIGN("h", I(0)), AUG("h", "+", CMP(V("a"), (">", I(2)))), AUG("h", "+", CMP(V("b"), (">", I(2)))),
+                                                     AUG("h", "+", CMP(V("c"), (">", I(2)))), RETURN(V("h"))])}))
     return out
 
 
@@ -578,6 +622,22 @@ def scope_fold_snippets() -> list:
                     [], "fold:aug-loop"))
     out.append(snip("fold-aug-in-branch", [ASSIGN("bs", S("ab")), IF([(CMP(AREAD(), (">", I(0))), [AUG("bs", "+", S("cd"))])]), WRITE(CALL("len", V("bs")))],
                     [0], "fold:aug-loop"))
+    # arms of one if / elif / else chain: what an earlier arm assigns must not leak into a later arm (nor the other way round)
+    for n, (a1, a2, tag) in enumerate([(0, 1, "second"), (0, 0, "else"), (1, 0, "first")]):
+        sv, nv, lv = f"as{n}", f"an{n}", f"al{n}"
+        out.append(snip(f"fold-sibling-arms-{tag}", [
+            ASSIGN(sv, S("abc")), ASSIGN(nv, I(3)), ASSIGN(lv, LIST(I(1), I(0), I(0))),
+            IF([(CMP(AREAD(), (">", I(0))), [ASSIGN(sv, S("abcdef")), ASSIGN(nv, I(10)), ASSIGN(lv, LIST(I(1), I(1), I(1))), SLEEP(V(nv))]),
+                (CMP(AREAD(), (">", I(0))), [WRITE(CALL("len", V(sv))), SLEEP(V(nv)), FOR(f"ai{n}", V(nv), [WRITE(INDEX(V(lv), V(f"ai{n}")))])])],
+               [WRITE(BIN("+", CALL("len", V(sv)), I(100))), SLEEP(BIN("+", V(nv), I(1))), AWRITE(9, BIN("*", V(nv), I(20)))])],
+            [a1, a2], "fold:sibling-arms"))
+    # name-free comparison chains (foldable at transpile time): each comparison is with the PREVIOUS operand
+    chains = [((0, "<", 10, "<", 5), 100, 500), ((0, "<=", 300, "<=", 255), 200, 10), ((3, ">", 1, ">", 2), 7, 8), ((1, "<", 2, "<", 3), 30, 40),
+              ((2, "==", 2, "!=", 2), 5, 6), ((5, ">", 4, ">", 4), 11, 12), ((1, "<", 3, ">", 2), 21, 22), ((1, "<", 2, "<", 3, "<", 2), 31, 32)]
+    for n, (ch, yes, no) in enumerate(chains):
+        c = CMP(I(ch[0]), *[(ch[i], I(ch[i + 1])) for i in range(1, len(ch), 2)])
+        out.append(snip(f"fold-literal-chain-{n}", [SLEEP(IFEXP(c, I(yes), I(no))), WRITE(c), AWRITE(9, IFEXP(c, I(yes), I(no))),
+                                                    FOR(f"ci{n}", IFEXP(c, I(2), I(1)), [WRITE(V(f"ci{n}"))])], [], "fold:literal-chain"))
     for s in out:
         s["routing"], s["site"] = "scope", s["fam"]
     return out
